@@ -21,7 +21,7 @@ type C19 struct{}
 func (e *C19) ID() string    { return "C19" }
 func (e *C19) Level() string { return "exploration" }
 func (e *C19) Rule() string {
-	return "section A (accepted images; each case under a GOMAXPROCS drawn from {1,2,3,4,5,6,7,12,16,24,31,33} - the number of CPUs is not an input of the hash): seeded 64x64 and 256x256 images of kind RGBA, NRGBA (opaque and with alpha), Gray, YCbCr 4:4:4, contents gradient/noise/constant/checker/single pixel/0-255 extremes/synthetic photo/repository photographs resized by the harness's box filter; each is hashed by the primary and the alternative function, twice, then again after the pixel pools were poisoned (NaN, 1e30, another image's values), and again as the same pixels at origins (1,1), (8,8), (-5,3) and as SubImage views with stride > width. Oracle: L = the luminance the library converts (exported Rgb2GrayFast / ImageToGray into harness buffers), itself checked against 0.299R+0.587G+0.114B of the pixel values for RGBA/NRGBA/Gray; c = low 8x8 / 16x16 block of an independent float64 2-D DCT-II of L in row-major frequency order; every c_i >= upper median + tau must have its bit (MSB first) set, every c_i <= lower median - tau must have it clear, set bits must form an upper set of c up to 2 tau; primary and alternative may differ only on bits with |c_i - median| <= 2(tau32+tau64+sum|L64-L32|); repeated, poisoned-pool and shifted-origin calls must return the identical hash. tau32 = data-dependent float32 kernel bound (2.5e-5*||L||_1 for 64; per-index weights of the 256-point kernel for 256), tau64 = 1e-9*||L||_1. Section B (rejection, exhaustive lattice): every (w,h) in [0,70]^2 except (64,64), every (w,h) in [250,260]^2 except (256,256), further sizes up to 512, and nil, for all four functions, image kinds cycled, also at non-zero origins and with poisoned pools: the call must return a non-nil error (no hash, no panic). Section C: Distance on random and edge hashes: d(a,a)=0, symmetry, popcount(a^b), triangle inequality. Non-trivial: an accepted image with non-constant luminance, or a rejected size; distinct = distinct (kind, content, size, variant) / (w,h,function)."
+	return "section A (accepted images; each case under a GOMAXPROCS drawn from {1,2,3,4,5,6,7,12,16,24,31,33} - the number of CPUs is not an input of the hash): seeded 64x64 and 256x256 images of kind RGBA (opaque, and premultiplied with varying alpha and fully transparent blocks), NRGBA (opaque and with alpha, fully transparent blocks included), Gray, YCbCr 4:4:4, contents gradient/noise/constant/checker/single pixel/0-255 extremes/synthetic photo/repository photographs resized by the harness's box filter; each is hashed by the primary and the alternative function, twice, then again after the pixel pools were poisoned (NaN, 1e30, another image's values), and again as the same pixels at origins (1,1), (8,8), (-5,3) and as SubImage views with stride > width. Oracle: L = the luminance the library converts (exported Rgb2GrayFast / ImageToGray into harness buffers), itself checked against 0.299R+0.587G+0.114B of the pixel values for RGBA/NRGBA/Gray; c = low 8x8 / 16x16 block of an independent float64 2-D DCT-II of L in row-major frequency order; every c_i >= upper median + tau must have its bit (MSB first) set, every c_i <= lower median - tau must have it clear, set bits must form an upper set of c up to 2 tau; primary and alternative may differ only on bits with |c_i - median| <= 2(tau32+tau64+sum|L64-L32|); repeated, poisoned-pool and shifted-origin calls must return the identical hash. tau32 = data-dependent float32 kernel bound (2.5e-5*||L||_1 for 64; per-index weights of the 256-point kernel for 256), tau64 = 1e-9*||L||_1. Section B (rejection, exhaustive lattice): every (w,h) in [0,70]^2 except (64,64), every (w,h) in [250,260]^2 except (256,256), further sizes up to 512, and nil, for all four functions, image kinds cycled, also at non-zero origins and with poisoned pools: the call must return a non-nil error (no hash, no panic). Section C: Distance on random and edge hashes: d(a,a)=0, symmetry, popcount(a^b), triangle inequality. Non-trivial: an accepted image with non-constant luminance, or a rejected size; distinct = distinct (kind, content, size, variant) / (w,h,function)."
 }
 func (e *C19) Assumptions() []string {
 	return []string{
@@ -34,7 +34,7 @@ func (e *C19) MinNontrivial(tier string) int { return 100 }
 func (e *C19) Exhaustive(tier string) bool   { return false }
 
 var c19Contents = []string{"gradient", "noise", "constant", "checker", "pixel", "extreme", "photo", "asset", "asset"}
-var c19Kinds = []string{"rgba", "nrgba", "nrgba-alpha", "gray", "ycbcr444"}
+var c19Kinds = []string{"rgba", "nrgba", "nrgba-alpha", "gray", "ycbcr444", "rgba-alpha"}
 
 type c19plan struct{ imgs, lattice, big, extra, dist int }
 
@@ -117,6 +117,9 @@ func c19Spec(kind, content string, s, ox, oy int, sub bool) gen.ImgSpec {
 	sp := gen.ImgSpec{Kind: kind, W: s, H: s, OX: ox, OY: oy, Sub: sub, Content: content}
 	if kind == "nrgba-alpha" {
 		sp.Kind, sp.Alpha = "nrgba", true
+	}
+	if kind == "rgba-alpha" {
+		sp.Kind, sp.Alpha = "rgba", true
 	}
 	return sp
 }
@@ -203,6 +206,24 @@ func (e *C19) runImage(c *core.Ctx, idx int) {
 	for i, v := range l32 {
 		lA[i] = float64(v)
 		dL += math.Abs(lA[i] - l64[i])
+	}
+	if yc, ok := img.(*image.YCbCr); ok && kind == "ycbcr444" {
+		// the luminance of a YCbCr image is the portable, unclamped conversion (C20's reference) in
+		// both converters, also where the colour is outside the RGB gamut
+		bd := img.Bounds()
+		for y := 0; y < s; y++ {
+			for x := 0; x < s; x++ {
+				ref := c20Ref(yc, bd.Min.X+x, bd.Min.Y+y)
+				if d := math.Abs(l64[y*s+x] - ref); d > 2.0 {
+					viol("gray:ycbcr64", fmt.Sprintf("Rgb2GrayFast pixel (%d,%d) = %.6g, portable YCbCr conversion = %.6g", x, y, l64[y*s+x], ref), nil)
+					return
+				}
+				if d := math.Abs(lA[y*s+x] - ref); d > 2.0 {
+					viol("gray:ycbcr32", fmt.Sprintf("ImageToGray pixel (%d,%d) = %.6g, portable YCbCr conversion = %.6g", x, y, lA[y*s+x], ref), nil)
+					return
+				}
+			}
+		}
 	}
 	// the conversion itself, for the kinds whose pixel values are RGB
 	if kind != "ycbcr444" {
